@@ -160,9 +160,11 @@ sim::Json generate(const std::string& tier, uint64_t seed, uint64_t index) {
   if (rng.chance(0.12)) {
     // a driver that opens its solver session once the options are known and registers that session with the interrupter when
     // the framework asks it to; half of the time its main() hands the same backend the model a second time
-    sc.set("driver", "direct");
+    // ... the stub driver (full model manager: a second hand-over fails on the pinned tree) or the lean one (it can be re-run)
+    const bool lean = rng.chance(0.6);
+    sc.set("driver", lean ? "lean" : "direct");
     sc.set("signals", sim::Json::array());
-    if (rng.chance(0.5)) sc.set("rerun_backend", (long)rng.range(1, 2)); else sc.set("rerun_backend", 0L);
+    if (rng.chance(lean ? 0.7 : 0.2)) sc.set("rerun_backend", (long)rng.range(1, 2)); else sc.set("rerun_backend", 0L);
     {
       sim::Json& sp = sc.ref("script");          // (no insertion into sc while this reference is in use)
       sp.erase("registrations");
